@@ -10,6 +10,7 @@ for id in $ids; do
   d=seeded/$id
   [ -f $d/patch.diff ] || continue
   prop=${id%%-*}
+  [ -f $d/target_override ] && prop=$(cat $d/target_override)
   if ! git -C /repo diff --quiet; then echo "/repo is dirty, refusing"; exit 2; fi
   git -C /repo apply --whitespace=nowarn /verif/$d/patch.diff || { echo "$id: patch does not apply"; continue; }
   out=$(./check $prop --tier quick 2>&1); rc=$?
